@@ -316,6 +316,8 @@ def m_isinstance(eng, st, args, kwargs, node):
     if cname in ("builtin:dict", "dict"):
         if isinstance(v, VRef):
             return VBool(isinstance(st.heap[v.addr], HDict))
+        if isinstance(v, VFn):
+            return VBool(ISDICT(v.t))
         return VBool(False)
     if cname in ("builtin:float", "float"):
         return VBool(isinstance(v, VFloat))
@@ -777,6 +779,7 @@ def m_isdigit(eng, st, recv, args, kwargs, node):
     raise Unsupported("isdigit on %r" % (recv,))
 
 
+ISDICT = z3.Function("isinstance.dict", Fn, z3.BoolSort())
 NDIST = z3.Function("NDIST", z3.ArraySort(z3.IntSort(), Label), BoolArr, z3.IntSort(), z3.IntSort())
 
 
@@ -1094,10 +1097,12 @@ def install(eng):
     M = eng.models
     for nm, f in [("len", m_len), ("int", m_int), ("float", m_float), ("abs", m_abs), ("divmod", m_divmod),
                   ("range", m_range), ("enumerate", m_enumerate), ("list", m_list), ("isinstance", m_isinstance),
-                  ("min", m_min), ("max", m_max), ("set", m_set), ("str", m_str)]:
+                  ("min", m_min), ("max", m_max), ("set", m_set), ("str", m_str),
+                  ("any", m_np_any), ("all", m_np_all)]:
         M["builtin:" + nm] = f
     for nm in ("dict", "bool", "tuple", "reversed"):
         M.setdefault("builtin:" + nm, None)
+    eng.module_consts["dict"] = VConc("builtin:dict")
     M["OrderedDict"] = m_ordereddict
     M["np.array"] = m_np_array
     M["np.atleast_1d"] = m_np_atleast_1d
